@@ -31,7 +31,7 @@ RULE = ("cases: fitter configurations (grid, law, A_V range, format/memmap/filte
         "fits with condition number <= 1e4")
 ASSUMPTIONS = ["finite value alphabets for real-valued inputs (see DESIGN.md section 0)",
                "condition number of the regression <= 1e4", "limits closer than 1e-9 dex to the fitted model are ambiguous"]
-REQUIRED_CLASSES = ['grid-of-hundreds-of-models', 'integer-typed-photometry', 'convolved-files-in-Jy', 'band-on-last-node-of-law', 'gzipped-convolved-files', 'law-in-other-unit', 'two-limits-different-confidence', 'av-interior', 'av-clamped-lo', 'av-clamped-hi', 'av-pinned', 'no-limit', 'limit-satisfied', 'limit-violated',
+REQUIRED_CLASSES = ['two-fitted-bands-with-nearly-equal-k', 'grid-of-hundreds-of-models', 'integer-typed-photometry', 'convolved-files-in-Jy', 'band-on-last-node-of-law', 'gzipped-convolved-files', 'law-in-other-unit', 'two-limits-different-confidence', 'av-interior', 'av-clamped-lo', 'av-clamped-hi', 'av-pinned', 'no-limit', 'limit-satisfied', 'limit-violated',
                     'limit-violated-conf1', 'k0-band-fitted', 'duplicate-model-tied', 'float32-path', 'flag4-fitted', 'negative-range']
 TIMEOUT = {'quick': 300, 'thorough': 1800}
 
@@ -61,6 +61,11 @@ def setup(tier, seed):
         if n == 4 and g == 2:
             continue
         cfgs.append({'grid': g, 'law': law, 'range': ir, 'variant': iv, 'n': n})
+    # two narrow bands 2 nm apart (k differs by half a percent) and a far one: whenever only the close pair is fitted the regression is
+    # nearly, but not, singular (condition number of a few hundred: well inside the quantifier)
+    for iv in (0, 2):
+        for ir in (0, 5):
+            cfgs.append({'grid': 0, 'law': 'power', 'range': ir, 'variant': iv, 'n': 3, 'allbands': ['N1', 'N2', 'B5']})
     # scale: grids of a few hundred models (row indices beyond 127 and 255, names filling the 30-character column), five bands
     for iv in ((0, 1) if tier == 'quick' else (0, 1, 2, 3)):
         for ir in ((0, 5) if tier == 'quick' else (0, 3, 4, 5)):
@@ -86,12 +91,16 @@ def run_case(ctx, case, rec, d):
     fmt, memmap, bywav = VARIANTS[case['variant']]
     avlo, avhi = RANGES[case['range']]
     n_models = case.get('big', 6)
-    flux_all = fc.grid2d(seed * 10 + case['grid'], n_models=n_models, law=law, bands=fc.ALL_BANDS, special=True)
-    cols = [fc.ALL_BANDS.index(b) for b in bands]
+    allb = case.get('allbands', fc.ALL_BANDS)
+    bands = case.get('allbands', bands)
+    flux_all = fc.grid2d(seed * 10 + case['grid'], n_models=n_models, law=law, bands=allb, special=True)
+    cols = [allb.index(b) for b in bands]
+    if 'allbands' in case:
+        rec.cls('two-fitted-bands-with-nearly-equal-k')
     names = fc.names_for(n_models)
     if n_models > 256:
         rec.cls('grid-of-hundreds-of-models')
-    spec = {'fmt': fmt.replace('gz', '').replace('Jy', ''), 'conv_unit': 'Jy' if fmt.endswith('Jy') else 'mJy', 'names': names, 'bands': fc.ALL_BANDS, 'flux': flux_all, 'flat_single': (case['grid'] % 2 == 0), 'gz': fmt.endswith('gz')}
+    spec = {'fmt': fmt.replace('gz', '').replace('Jy', ''), 'conv_unit': 'Jy' if fmt.endswith('Jy') else 'mJy', 'names': names, 'bands': allb, 'flux': flux_all, 'flat_single': (case['grid'] % 2 == 0), 'gz': fmt.endswith('gz')}
     if fmt.endswith('gz'):
         rec.cls('gzipped-convolved-files')
     if fmt.endswith('Jy'):
@@ -109,7 +118,7 @@ def run_case(ctx, case, rec, d):
         rec.cls('law-in-other-unit')
     if law == 'edge' and 'B5' in bands:
         rec.cls('band-on-last-node-of-law')
-    cfg_key = (case['grid'], law, case['range'], case['variant'], n)
+    cfg_key = (case['grid'], law, case['range'], case['variant'], n, n_models, tuple(bands))
     first = True
     fvs = BIG_FLAGS if 'big' in case else fc.flag_vectors(n, need_fitted=2)
     for fv in fvs:
